@@ -5,6 +5,10 @@ import json, subprocess
 HOOK_COMMITS = subprocess.run(["git", "-C", "/repo", "log", "--format=%h %s", "--grep=^hook:"], capture_output=True, text=True).stdout.strip().splitlines()
 
 CLAIMED = {
+    "C01": ("§4 C01", "Seeded exploration of put-then-get over real networks (1..20 servers + 0..30 clients exact verdict; 50..300 servers judged by success rate against a floor of 0.75, measured baseline 0.96), all four data kinds, crash sets (random, all-ackers-but-one, hub, non-ackers) with empty restarts, readers with lookups already in flight; precondition (a live acker reachable through live tables of the kind the lookup walks) evaluated from snapshots; two open known findings (queries keyed by target only).",
+            "deterministic simulation with crash/restart fault injection, availability oracle over trace + snapshots"),
+    "C13": ("§4 C13", "Seeded exploration of join schedules (sequential, staggered, simultaneous, late joiners), sizes 1..20 (+0..30 clients) and 50..300, private/public IP plans, dead bootstrap entries: bootstrapped()/non-empty table, first node learns joiners, strongly connected knows-graph, every-server-queried for <= 20 servers, all-dead bootstrap list reports false within the horizon.",
+            "deterministic simulation, seeded join-schedule sampling, graph + trace oracle"),
     "C02": ("§4 C02", "Seeded exploration with Byzantine scripted responders: every item surfaced by the six read APIs is independently re-verified (hash / key / salt / signature / target) and authentic replicas must still surface; catalogue of 22 forgeries, any subset of responders, any arrival order.",
             "deterministic simulation with Byzantine-peer fault injection, independent re-verification oracle"),
     "C16": ("§4 C16", "Seeded exploration of arrival orders of 1..8 authentic replicas (gaps, duplicates, equal-seq ties) for the async API and, through a sequenced helper thread, the sync API; expected value computed from the trace of delivered replies.",
@@ -37,7 +41,7 @@ NOT_APPLICABLE = {
 }
 
 # properties designed in DESIGN.md whose checks are not built yet are listed as not claimed (reason says so)
-PENDING = ["C01", "C12", "C13", "C14", "C18", "C20"]
+PENDING = ["C12", "C14", "C18", "C20"]
 
 checks = []
 for pid, (ref, text, tech) in sorted(CLAIMED.items()):
